@@ -8,6 +8,8 @@ package main
 
 import (
 	"context"
+	"encoding/json"
+	"errors"
 	"fmt"
 	"io"
 	"log"
@@ -368,20 +370,35 @@ func captureServer() *httptest.Server {
 		return capSrv
 	}
 	mux := http.NewServeMux()
-	// /capture: the handler wraps its writer itself
+	caseOf := func(r *http.Request) (cs captureCase, key string) {
+		_ = json.Unmarshal([]byte(r.Header.Get("X-Verif-Case")), &cs)
+		return cs, cs.key()
+	}
+	// /capture: the handler wraps its writer itself (a spy records what net/http's writer returns)
 	mux.HandleFunc("/capture", func(w http.ResponseWriter, r *http.Request) {
-		key := r.Header.Get("X-Verif-Ops")
-		rc := httpm.CaptureResponse(w)
-		applyOps(rc, strings.Split(key, ","))
+		cs, key := caseOf(r)
+		spy := &wireSpy{ResponseWriter: w}
+		rc := httpm.CaptureResponse(spy)
+		cs.handle(rc)
 		capMu.Lock()
-		capSeen[key] = captureObs{Reported: true, Status: rc.StatusCode, Bytes: rc.ContentLength}
+		capSeen[key] = captureObs{Reported: true, Status: rc.StatusCode, Bytes: rc.ContentLength, Attempted: spy.attempted, Accepted: spy.accepted}
 		capMu.Unlock()
 		capDone <- struct{}{}
 	})
 	// /log: the Log middleware wraps the writer and reports the capture's fields
-	mux.Handle("/log", httpm.Log(capLog)(http.HandlerFunc(func(w http.ResponseWriter, r *http.Request) {
-		applyOps(w, strings.Split(r.Header.Get("X-Verif-Ops"), ","))
-	})))
+	logged := httpm.Log(capLog)(http.HandlerFunc(func(w http.ResponseWriter, r *http.Request) {
+		cs, _ := caseOf(r)
+		cs.handle(w)
+	}))
+	mux.HandleFunc("/log", func(w http.ResponseWriter, r *http.Request) {
+		_, key := caseOf(r)
+		spy := &wireSpy{ResponseWriter: w}
+		logged.ServeHTTP(spy, r)
+		capMu.Lock()
+		capSeen[key] = captureObs{Attempted: spy.attempted, Accepted: spy.accepted}
+		capMu.Unlock()
+		capDone <- struct{}{}
+	})
 	capSrv = httptest.NewUnstartedServer(mux)
 	capSrv.Config.ErrorLog = log.New(io.Discard, "", 0) // "superfluous WriteHeader" lines are expected
 	capSrv.Start()
@@ -400,14 +417,15 @@ func closeCaptureServer() {
 // execCaptureReal performs one real round trip (requests are issued one at a time).
 func execCaptureReal(cs captureCase) (captureObs, error) {
 	srv := captureServer()
-	key := strings.Join(cs.Ops, ",")
+	key := cs.key()
 	path := "/capture"
 	if cs.Via == "server-log" {
 		path = "/log"
 		capLog.reset()
 	}
 	req, _ := http.NewRequest("GET", srv.URL+path, nil)
-	req.Header.Set("X-Verif-Ops", key)
+	cj, _ := json.Marshal(cs)
+	req.Header.Set("X-Verif-Case", string(cj))
 	// a fresh connection per case: after a 101 the connection is not reusable
 	tr := &http.Transport{DisableKeepAlives: true}
 	defer tr.CloseIdleConnections()
@@ -416,14 +434,30 @@ func execCaptureReal(cs captureCase) (captureObs, error) {
 		return captureObs{}, err
 	}
 	var body []byte
+	truncated := false
 	if resp.StatusCode != http.StatusSwitchingProtocols {
 		body, err = io.ReadAll(resp.Body)
+		if errors.Is(err, io.ErrUnexpectedEOF) {
+			// the handler declared more than it wrote: net/http closes the connection after what
+			// was written; the bytes received are still what was sent
+			truncated, err = true, nil
+		}
 	}
 	_ = resp.Body.Close()
 	if err != nil {
 		return captureObs{}, err
 	}
 	var o captureObs
+	if err := await(capDone, 1, "the handler for "+key); err != nil {
+		return o, err
+	}
+	capMu.Lock()
+	seen, ok := capSeen[key]
+	delete(capSeen, key)
+	capMu.Unlock()
+	if !ok {
+		return o, fmt.Errorf("real server handler left no observation for %s", key)
+	}
 	if cs.Via == "server-log" {
 		// request line + response line; the latter is logged after the handler returned, possibly
 		// after the client got the whole response
@@ -437,20 +471,11 @@ func execCaptureReal(cs captureCase) (captureObs, error) {
 		if !(ok1 && ok2 && ok3 && ok4) {
 			return o, fmt.Errorf("Log middleware did not log integer status/bytes for %s", key)
 		}
-		o = captureObs{Reported: true, Status: si, Bytes: bi}
+		o = captureObs{Reported: true, Status: si, Bytes: bi, Attempted: seen.Attempted, Accepted: seen.Accepted}
 	} else {
-		if err := await(capDone, 1, "the handler for "+key); err != nil {
-			return o, err
-		}
-		capMu.Lock()
-		seen, ok := capSeen[key]
-		delete(capSeen, key)
-		capMu.Unlock()
-		if !ok {
-			return o, fmt.Errorf("real server handler left no observation for %s", key)
-		}
 		o = seen
 	}
+	o.Truncated = truncated
 	first, _, _ := committedBy(cs.Ops)
 	o.Committed = first != "nothing" // otherwise net/http sends 200 by itself afterwards: not written by the handler, not asserted
 	o.WroteStatus = resp.StatusCode
